@@ -18,8 +18,17 @@ class MachineryError(Exception):
     pass
 
 
+class TSet(list):
+    """A list to be rendered as a TLA+ set (for unhashable elements)."""
+
+
+_IDENT = re.compile(r"^[A-Za-z][A-Za-z0-9_]*$")
+
+
 def to_tla(v):
     """Render a Python value as a TLA+ expression."""
+    if isinstance(v, TSet):
+        return "{" + ", ".join(to_tla(x) for x in v) + "}"
     if isinstance(v, bool):
         return "TRUE" if v else "FALSE"
     if isinstance(v, int):
@@ -33,6 +42,8 @@ def to_tla(v):
     if isinstance(v, dict):
         if not v:
             return "<<>>"
+        if all(isinstance(k, str) and _IDENT.match(k) for k in v):
+            return "[" + ", ".join("%s |-> %s" % (k, to_tla(x)) for k, x in v.items()) + "]"
         return "(" + " @@ ".join("%s :> %s" % (to_tla(k), to_tla(x)) for k, x in v.items()) + ")"
     raise TypeError("to_tla: %r" % (v,))
 
